@@ -2,7 +2,7 @@
 import re
 from ..engine import rule, ok, bad, missing
 from ..sym import show
-from ..table import render
+from ..table import render, strip_ver
 from ..facts import callee, strip_lt
 from .. import setexpr as SX
 from ..dom import call_sites, guard_strings, dominating_guards, or_guarded
@@ -275,8 +275,16 @@ def _closure_sites(ctx, b):
     return call_sites(b, lambda r: r.endswith("::add_case_closure_to"))
 
 
+def _base(v):
+    return v[1] if isinstance(v, tuple) and v and v[0] == "mut" else v
+
+
 def _builder_events(p):
     """[(kind, builder_value, arg_value, bb)] for add_char / add_range / closure calls along a path."""
+    return [(k, _base(b), a, bb) for k, b, a, bb in _builder_events0(p)]
+
+
+def _builder_events0(p):
     ev = []
     for e in p.effects:
         if e[0] != "call":
@@ -377,7 +385,7 @@ def case_closure_all(ctx):
         evs = _builder_events(p)
         gm = {}
         for a, o in p.guards:
-            gm[render(a)] = o
+            gm[strip_ver(render(a))] = o
         for idx, (k, bld, arg, bb) in enumerate(evs):
             if k == "closure":
                 continue
@@ -385,7 +393,7 @@ def case_closure_all(ctx):
             later = evs[idx + 1:]
             closed = any(c[0] == "closure" and c[1] == bld and _covers((k, bld, arg, bb), c[2]) for c in evs)
             # exhausted iteration over the same range (empty range: nothing to close)
-            rs = render(arg)
+            rs = strip_ver(render(arg))
             exhausted = k == "add_range" and gm.get("variant(next(%s))" % rs) == ("variant", "None")
             flag_off = gm.get(FLAG) is False
             good = closed or exhausted or flag_off
